@@ -83,6 +83,11 @@ PROPOSED_FINDINGS = [
      "class_expr": "r.get('kind')=='syntax' and r.get('rule')=='param-default'",
      "witness": {"design": "test/interactive/tb_Parameter.py: addParameter('INIT', 1)", "emitted": "module ParamTop #( parameter INIT) ("},
      "what": "createModuleHeader emits `parameter NAME` without a value: IEEE 1364-2005 requires `parameter NAME = constant` (only SystemVerilog allows the bare form, and not for the top module)"},
+    {"id": "C03-param-name-collision", "property": "C03", "status": "known", "anchor": "py4hw/rtl_generation.py:699",
+     "class_expr": "r.get('kind')=='wf' and r.get('err')=='dupDecl' and len(r['source_kinds'])>=2 and r['sources_distinct'] and 'param' in r['source_kinds'] "
+                   "and set(r['source_kinds'])<={'port','wire','instance','clock','param'}",
+     "witness": {"design": "structural block with ports a, load, r and addParameter('a', 1)", "emitted": "module ParamMid #( parameter a) ( input clk, input [7:0] a, …"},
+     "what": "parameter names share the module name space with ports, w_-prefixed wires, i_-prefixed instances and the implicit clock but are emitted verbatim: a parameter named like a port / `clk` / `w_<wire>` / `i_<instance>` is declared twice"},
     {"id": "C03-transpiler-ternary", "property": "C03", "status": "known", "anchor": "py4hw/transpilation/python2verilog_transpilation.py:552",
      "class_expr": "r.get('kind')=='parse' and r.get('has_ifexp') and r.get('kw_in_msg')=='if'",
      "witness": {"design": "self.y = 1 if self.a.get() > 2 else 2", "emitted": "y=if (a>2) begin 1 end else begin 2 end ;"},
@@ -619,13 +624,6 @@ def stream_behav(pipe, res, rng, tier):
         for w in ([8] if tier == 'quick' else [1, 2, 8, 32]):
             hw, dut = B.build(cls, w)
             pipe.add(dict(kind='behav:' + cls.__name__, desc=dict(cls=cls.__name__, w=w), gen_root=hw, dut=dut))
-    for w in ([8] if tier == 'quick' else [1, 4, 8, 32]):
-        for direct in (False, True):
-            try:
-                hw, dut = B.build_param(w, 'INIT', direct)
-                pipe.add(dict(kind='behav:ParamTop', desc=dict(cls='ParamTop', w=w, direct=direct), gen_root=dut, dut=dut))
-            except Exception as e:
-                res.hist('constructor_refusals', f'ParamTop:{type(e).__name__}')
     # the repo's own behavioural classes
     W = lambda hw, n, w=1: hw.wire(n, w)
 
@@ -700,6 +698,37 @@ def stream_behav(pipe, res, rng, tier):
                 return UARTMsgGenerator(hw, 'gen', W(hw, 'tx'), 50e6, 115200, msg)
         mk('MsgSequencer', ms)
         mk('UARTMsgGenerator', gen)
+
+
+def stream_params(pipe, res, rng, tier):
+    """structural parameters: literal overrides, same-name and different-name forwarding, two-level chains, use inside
+    transpiled bodies and an inlined primitive, parameter names that are reserved words or equal a port name"""
+    import c03_behav as B
+    q = tier == 'quick'
+    mode_sets = [('forward',), ('literal',), ('forward', 'literal'), ('literal', 'forward'), ('forward', 'forward'),
+                 ('comb',), ('shift',), ('forward', 'comb', 'shift', 'literal')]
+    pnames = ['INIT', 'START', 'N', 'init', 'LO', 'design', 'wire', 'table', 'a', 'r', 'load', 'clk', 't0', 'w_t0', 'i_p0', 'p0']
+    outers = ['BASE', 'INIT', 'START', 'uwire', 'a', 'm', 'w_m']
+    ws = [8] if q else [1, 4, 8, 32]
+
+    def add(**kw):
+        try:
+            hw, dut = B.build_param(**kw)
+        except Exception as e:
+            res.hist('constructor_refusals', f'param:{type(e).__name__}')
+            return
+        pipe.add(dict(kind='param', desc={k: (list(v) if isinstance(v, tuple) else v) for k, v in kw.items()}, gen_root=dut, dut=dut))
+    for w in ws:
+        for pn in pnames:
+            for ms in (mode_sets if (pn in ('INIT', 'START') or not q) else mode_sets[2:3] + mode_sets[-1:]):
+                add(w=w, pname=pn, modes=ms)
+        for pn in ['INIT', 'START', 'table']:
+            add(w=w, pname=pn, modes=('forward', 'literal'), child_kw=True)
+        for outer in outers:
+            for pn in (['INIT', 'START', outer] if not q or outer in ('BASE', 'INIT') else ['START']):
+                for fwd in (True, False):
+                    add(w=w, pname=pn, modes=('forward', 'literal', 'comb'), levels=2, outer=outer, forward=fwd)
+        pipe.maybe_flush()
 
 
 def names_oracle(pipe, res, rng, kws, tier):
@@ -788,6 +817,7 @@ def main(res, tier, rng, replay):
     stream_reuse(pipe, res, rng.fork('reuse'), tier)
     stream_names(pipe, res, rng.fork('names'), kws, tier)
     stream_behav(pipe, res, rng.fork('behav'), tier)
+    stream_params(pipe, res, rng.fork('params'), tier)
     pipe.maybe_flush()
     stream_lib(pipe, res, rng.fork('lib'), 6 if q else 200)
     stream_multi(pipe, res, rng.fork('multi'), 4 if q else 150)
